@@ -237,3 +237,64 @@ pub fn run(id: &str, p: &HashMap<String, String>, out: &mut Vec<String>) {
     out.push(format!("unchanged {}", if before == after { 1 } else { 0 }));
     out.push("end".to_string());
 }
+
+/// status / extension in terms of labels (sorted), for relations between runs
+pub fn run_query_labels(
+    _af: &AAFramework<usize>,
+    solver: &mut Solver,
+    task: &str,
+    args: &[usize],
+) -> String {
+    let arg_refs: Vec<&usize> = args.iter().collect();
+    let lab = |e: Vec<&Argument<usize>>| {
+        let mut v: Vec<usize> = e.iter().map(|a| *a.label()).collect();
+        v.sort();
+        if v.is_empty() {
+            "[]".to_string()
+        } else {
+            util::join(&v, ",")
+        }
+    };
+    match task {
+        "SE" => {
+            let r = match solver {
+                Solver::Gr(s) => s.compute_one_extension(),
+                Solver::Pr(s) => s.compute_one_extension(),
+                Solver::St(s) => s.compute_one_extension(),
+                Solver::Sst(s) => s.compute_one_extension(),
+                Solver::Stg(s) => s.compute_one_extension(),
+                Solver::Id(s) => s.compute_one_extension(),
+                Solver::Co(_) => panic!("SE not available for the complete solver"),
+            };
+            match r {
+                Some(e) => format!("EXT {}", lab(e)),
+                None => "NOEXT".to_string(),
+            }
+        }
+        "DC" => {
+            let st = match solver {
+                Solver::Gr(s) => s.are_credulously_accepted(&arg_refs),
+                Solver::Co(s) => s.are_credulously_accepted(&arg_refs),
+                Solver::St(s) => s.are_credulously_accepted(&arg_refs),
+                Solver::Sst(s) => s.are_credulously_accepted(&arg_refs),
+                Solver::Stg(s) => s.are_credulously_accepted(&arg_refs),
+                Solver::Id(s) => s.are_credulously_accepted(&arg_refs),
+                Solver::Pr(_) => panic!("DC not available for the preferred solver"),
+            };
+            (if st { "YES" } else { "NO" }).to_string()
+        }
+        "DS" => {
+            let st = match solver {
+                Solver::Gr(s) => s.are_skeptically_accepted(&arg_refs),
+                Solver::Pr(s) => s.are_skeptically_accepted(&arg_refs),
+                Solver::St(s) => s.are_skeptically_accepted(&arg_refs),
+                Solver::Sst(s) => s.are_skeptically_accepted(&arg_refs),
+                Solver::Stg(s) => s.are_skeptically_accepted(&arg_refs),
+                Solver::Id(s) => s.are_skeptically_accepted(&arg_refs),
+                Solver::Co(_) => panic!("DS not available for the complete solver"),
+            };
+            (if st { "YES" } else { "NO" }).to_string()
+        }
+        _ => panic!("unknown task"),
+    }
+}
